@@ -220,3 +220,14 @@ Definition cop_of (k : scheme_kind) (e : nev) : list cop :=
   | NFlush r => [CFlush r]
   end.
 Definition cops_of (k : scheme_kind) (es : list nev) : list cop := flat_map (cop_of k) es.
+
+(* ---- the aggregator's input channel while the aggregator is stalled ----
+   chainStore.NewValidPartial is a blocking send on newPartials (capacity defaultPartialChanBuffer).
+   While the aggregator takes nothing out of the channel (it is held in a Put), a caller that hands
+   over one verified partial after the other gets through until the channel is full and is held in
+   the next call: the partials pending in the node on behalf of that caller are min(sent, capacity). *)
+Fixpoint np_run (cap pending : Z) (sent : nat) : Z :=
+  match sent with
+  | O => pending
+  | S k => if pending <? cap then np_run cap (pending + 1) k else pending   (* held: no further call *)
+  end.
